@@ -9,6 +9,7 @@ import ProphyModel.Properties.Tables
 import ProphyModel.Lemmas.Scalars
 import ProphyModel.Lemmas.PyDecodeTotal
 import ProphyModel.Lemmas.PyDecodeTyped
+import ProphyModel.Lemmas.PyRoundTrip
 namespace Prophy.C06
 open Prophy
 
@@ -58,6 +59,16 @@ theorem C06_py_decoded_encodes (t : Ty) (data : Bytes) (e : Endian) (v : Val) (n
     (h : Py.decode t data e = .ok (v, n)) :
     ∀ e', Py.encode t v e' = .ok (Spec.enc t v e') :=
   Py.decoded_encodes t data e v n hf hp h
+
+/-- FULL STATEMENT, fixpoint clause: decoding the encoding of whatever decode returned gives the same
+    value and consumes it all - whenever the decoded greedy tail ends aligned (`Spec.galTy`; the
+    other case is the documented exception of C02 / known finding D21) -/
+theorem C06_py_fixpoint (t : Ty) (data : Bytes) (e e' : Endian) (v : Val) (n : Nat)
+    (hf : Accept.front t = true) (hp : Accept.pyRt t = true)
+    (h : Py.decode t data e = .ok (v, n)) (hg : Spec.galTy t v = true) :
+    ∃ b, Py.encode t v e' = .ok b ∧ Py.decode t b e' = .ok (v, b.length) := by
+  obtain ⟨h1, h2, h3⟩ := Py.decode_typed t data e v n hf hp h
+  exact ⟨Spec.enc t v e', Py.decoded_encodes t data e v n hf hp h e', Py.decode_encode t v e' hf hp h1 h2 hg h3⟩
 
 /-- the repaired defect D50 (two arrays on one counter, the second a limited bytes field cut at
     the end of the input: decode returned a message that did not encode): the input is refused now -/
